@@ -128,6 +128,9 @@ Inductive cstmt :=
 | SIf (k : string) (c : cexpr) (a b : list cstmt)
 | SLoop (k : string) (pre : bool) (c : cexpr) (body step : list cstmt)
 | SRet (k : string) (e : option cexpr)
+| SSwitch (k : string) (e : cexpr) (cases : list (list Z * list cstmt)) (default : list cstmt)
+    (* the structured form only: every case body ends in break or return (stacked labels share one body) *)
+| SBreak
 | SClobber (x : string)       (* a callee was handed &x (or the local array x) through a pointer to non-const: x and its parts are unknown now *)
 | SOther (what : string).
 
@@ -144,6 +147,7 @@ Definition event := (string * list Z)%type.           (* routine called, evaluat
 Inductive xresult :=
 | Fell (rho : env) (tr : list event)                   (* reached the end of the statement list *)
 | Returned (v : option Z) (rho : env) (tr : list event)
+| Broke (rho : env) (tr : list event)                  (* a break statement: leaves the enclosing switch or loop *)
 | Stuck (why : string)
 | NoFuel.
 
@@ -151,6 +155,12 @@ Fixpoint evals (rho : env) (m : memory) (l : list cexpr) : option (list Z) :=
   match l with
   | [] => Some []
   | e :: r => match ceval rho m e, evals rho m r with Some v, Some vs => Some (v :: vs) | _, _ => None end
+  end.
+
+Fixpoint pick_case (v : Z) (cases : list (list Z * list cstmt)) (default : list cstmt) : list cstmt :=
+  match cases with
+  | [] => default
+  | (labels, body) :: r => if existsb (Z.eqb v) labels then body else pick_case v r default
   end.
 
 Fixpoint exec (fuel : nat) (m : memory) (rho : env) (tr : list event) (l : list cstmt) : xresult :=
@@ -175,12 +185,21 @@ Fixpoint exec (fuel : nat) (m : memory) (rho : env) (tr : list event) (l : list 
             | Fell rho2 tr2 => match exec f m rho2 tr2 step with
                                | Fell rho3 tr3 => exec f m rho3 tr3 (SLoop k true c body step :: r)
                                | o => o end
+            | Broke rho2 tr2 => exec f m rho2 tr2 r
             | o => o end in
           if pre then
             match ceval rho m c with
             | Some v => if negb (v =? 0) then continue_ rho tr else exec f m rho tr r
             | None => Stuck k end
           else continue_ rho tr
+      | SSwitch k e cases default =>
+          match ceval rho m e with
+          | Some v => match exec f m rho tr (pick_case v cases default) with
+                      | Fell rho' tr' => exec f m rho' tr' r
+                      | Broke rho' tr' => exec f m rho' tr' r
+                      | o => o end
+          | None => Stuck k end
+      | SBreak => Broke rho tr
       | SClobber x => exec f m (clobber rho (length tr) x) tr r
       | SRet k None => Returned None rho tr
       | SRet k (Some e) => match ceval rho m e with Some v => Returned (Some v) rho tr | None => Stuck k end
